@@ -298,7 +298,7 @@ func c05interpOne(c *Ctx, p *c05Prog) {
 		return
 	}
 	tree := c05factorTree(o.Tree)
-	if len(tree) > c.Pick(26000, 90000) {
+	if len(tree) > c.Pick(26000, 40000) {
 		// coqc needs ~14 ms per 100 bytes of tree term: very large programs are left to the
 		// thorough tier (counted)
 		c.Dist["interp_skipped_large_tree"]++
@@ -350,10 +350,10 @@ func c05interpStream(c *Ctx) {
 	c05exhaustive(c05pool(), "exhaustive", []string{"a", "b"}, c.Pick(3, 4), c.Pick(14, 2), every(c.Pick(17, 29)))
 	c05exhaustive(c05listPool(), "exhaustive-lists", []string{"a", "b", "c"}, c.Pick(3, 4), c.Pick(9, 3), every(c.Pick(13, 23)))
 	g := &c05gen{c: c}
-	for i := 0; i < c.Pick(45, 900) && !c.Enough(); i++ {
+	for i := 0; i < c.Pick(45, 300) && !c.Enough(); i++ {
 		emit(g.program())
 	}
-	for i := 0; i < c.Pick(15, 300) && !c.Enough(); i++ {
+	for i := 0; i < c.Pick(15, 100) && !c.Enough(); i++ {
 		emit(g.freshProgram())
 	}
 	c.Extra["interp_three_way_programs"] = total
